@@ -11,6 +11,7 @@ func TestReplay(t *testing.T) {
 		"HarnessBriefStall":               HarnessBriefStall,
 		"HarnessNoRenewalWithoutActivity": HarnessNoRenewalWithoutActivity,
 		"HarnessPingsDisabled":            HarnessPingsDisabled,
+		"HarnessPingsWhileBusy":           HarnessPingsWhileBusy,
 		"HarnessPongsAfterReconnect":      HarnessPongsAfterReconnect,
 		"HarnessRenewals":                 HarnessRenewals,
 		"HarnessSilentPeer":               HarnessSilentPeer,
